@@ -325,6 +325,9 @@ func newInterpreter(e *Engine, h *Harness, solver *Solver, script []Decision) *i
 func (i *interpreter) nextScripted() (Decision, bool) {
 	if i.pos < len(i.script) {
 		d := i.script[i.pos]
+		if i.solver != nil {
+			i.solver.OnDecision(i.pos)
+		}
 		i.pos++
 		return d, true
 	}
@@ -332,6 +335,9 @@ func (i *interpreter) nextScripted() (Decision, bool) {
 }
 
 func (i *interpreter) record(d Decision) {
+	if i.solver != nil {
+		i.solver.OnDecision(len(i.script))
+	}
 	i.script = append(i.script, d)
 	i.pos = len(i.script)
 }
@@ -686,23 +692,35 @@ func (e *Engine) Explore(h *Harness) *HarnessReport {
 			mu.Unlock()
 			return
 		}
+		solver.Reuse = os.Getenv("VERIF_NO_REUSE") == ""
 		solver.PreferBVInt = h.PreferInt
 		solver.PreferCVC5 = h.PreferCVC5
 		defer solver.Close()
+		var mine *workItem // the deepest alternative of the path just finished (prefix locality)
 		for {
 			mu.Lock()
-			for len(queue) == 0 && inflight > 0 && !stop {
-				cond.Wait()
+			if mine != nil && stop {
+				mine = nil
+				inflight--
 			}
-			if stop || (len(queue) == 0 && inflight == 0) {
-				cond.Broadcast()
-				mu.Unlock()
-				return
+			var it workItem
+			if mine != nil {
+				it = *mine
+				mine = nil
+			} else {
+				for len(queue) == 0 && inflight > 0 && !stop {
+					cond.Wait()
+				}
+				if stop || (len(queue) == 0 && inflight == 0) {
+					cond.Broadcast()
+					mu.Unlock()
+					return
+				}
+				// depth-first: take from the end
+				it = queue[len(queue)-1]
+				queue = queue[:len(queue)-1]
+				inflight++
 			}
-			// depth-first: take from the end
-			it := queue[len(queue)-1]
-			queue = queue[:len(queue)-1]
-			inflight++
 			mu.Unlock()
 
 			res, alts, fs := e.runPath(h, solver, it.script)
@@ -744,7 +762,13 @@ func (e *Engine) Explore(h *Harness) *HarnessReport {
 					*cur = s
 				}
 			}
-			for _, a := range alts {
+			for k, a := range alts {
+				if k == len(alts)-1 && !stop {
+					w := workItem{a}
+					mine = &w
+					inflight++
+					continue
+				}
 				queue = append(queue, workItem{a})
 			}
 			if int(n) >= maxPaths && (len(queue) > 0 || inflight > 0) && !stop {
@@ -807,13 +831,17 @@ func (e *Engine) RunScript(h *Harness, script string) *PathResult {
 func (e *Engine) runPath(h *Harness, solver *Solver, script []Decision) (res *PathResult, alts [][]Decision, funcs map[*ssa.Function]bool) {
 	i := newInterpreter(e, h, solver, append([]Decision(nil), script...))
 	i.funcsEncoded = map[*ssa.Function]bool{}
-	solver.BeginPath()
+	solver.BeginPath(i.script)
 	res = i.res
 	main := i.newThread(nil, nil)
 	i.cur = main
 	defer func() {
 		p := recover()
 		close(i.dead)
+		if len(i.threads) <= 1 {
+			i.releaseBig()
+		}
+		solver.EndPath(i.script)
 		res.Script = i.script
 		res.Decisions = len(i.script)
 		res.Steps = i.steps
